@@ -54,6 +54,12 @@ def delKeys : List Op → List Key
   | .del k :: r => k :: delKeys r
   | _ :: r => delKeys r
 
+/-- row-sets that new delete vectors of a changeset refer to -/
+def dvKeys : List Op → List Key
+  | [] => []
+  | .addDv k _ _ :: r => k :: dvKeys r
+  | _ :: r => dvKeys r
+
 /-- One arm of the `match op` in `commit_changes_with_custom_manifest`; `none` = the `unwrap`
 in `Snapshot::delete_rowset` / `delete_dv` panics. -/
 def applyOp (s : Snap) : Op → Option Snap
@@ -136,10 +142,11 @@ def kReserve (k : K) (th : Tid) (t : Nat) : K :=
            disk := (t, k.nextRid) :: k.disk }
 
 /-- what the model insists on before phase A: added row-sets were reserved by this thread,
-deleted ones are known, committed ids -/
+deleted ones — and the ones new delete vectors refer to — are known, committed ids -/
 def opsOk (k : K) (th : Tid) (ops : List Op) : Bool :=
-  (addKeys ops).all (fun key => k.resv.contains (th, key))
-  && (delKeys ops).all (fun key => decide (key.2 < k.nextRid) && !(k.resv.map (·.2)).contains key)
+  ((addKeys ops).all (fun key => k.resv.contains (th, key))
+  && (delKeys ops).all (fun key => decide (key.2 < k.nextRid) && !(k.resv.map (·.2)).contains key))
+  && (dvKeys ops).all (fun key => decide (key.2 < k.nextRid) && !(k.resv.map (·.2)).contains key)
 
 /-- phase A of `commit_changes` (manifest lock taken, inner lock held) -/
 def kCommitA (k : K) (th : Tid) (ops : List Op) : Option K :=
